@@ -12,6 +12,7 @@ import numpy
 from ....core.implementations import implementation
 from ....core.units import cm2int
 from ....core.units import kB_intK
+from ....core.managers import energy_units
 
 
 from ...hilbertspace.hamiltonian import Hamiltonian
@@ -75,6 +76,12 @@ class RedfieldRateMatrix:
         """ Prepares all data for rate calculation, and calls an implementation code
         
         """
+        # everything below works with values in internal units
+        with energy_units("int"):
+            self._set_rates_int()
+            
+            
+    def _set_rates_int(self):
         
         # dimension of the Hamiltonian (includes excitons
         # with all multiplicities specified at its creation)
